@@ -5,6 +5,8 @@ CONSTANTS
   RMaxErr = 1
   Supported = {13}
   RMaxDepth = 4
+  RProtos = {"handshake", "keepalive", "peersharing", "blockfetch", "chainsync", "txsubmission", "leiosnotify", "leiosfetch"}
+  RCmds = {"hk", "ban", "disconnect-peer", "provide"}
 INIT MRInit
 NEXT RNext
 VIEW RView
